@@ -393,8 +393,19 @@ def save_replay(pid, name, content):
 # Binding A: TLC-generated behaviours piped into a replayer; binding B: recorded traces validated by TLC
 # ---------------------------------------------------------------------------------------------------
 
+# runs against another tree (VERIF_REPO, used for seeded changes) keep their scratch files apart, so that several can run
+# at the same time as a run against /repo
+RUN_TAG = "" if REPO == "/repo" else "-" + hashlib.sha1(REPO.encode()).hexdigest()[:8]
+
+
+def trace_dir():
+    d = os.path.join(BUILD, "traces" + RUN_TAG)
+    os.makedirs(d, exist_ok=True)
+    return d
+
+
 def cfg_dir():
-    d = os.path.join(BUILD, "cfg")
+    d = os.path.join(BUILD, "cfg" + RUN_TAG)
     os.makedirs(d, exist_ok=True)
     return d
 
@@ -463,7 +474,7 @@ def generate_and_replay(module, name, constants, exe, exe_args=("replay",), inva
         crash = {"rc": hp.returncode, "beh": beh}
         if summary is None:
             summary = {"behaviours": 1, "steps": 0, "failed": 1, "fail_keys": {"crash": 1}, "classes": 0,
-                       "class_list": [], "sample": "", "shape_diffs": 0}
+                       "class_list": [], "sample": beh.strip() if beh.strip()[:1] in ("[", "{") else "[]", "shape_diffs": 0}
     elif herr or summary is None or hp.returncode != 0:
         raise ModelFailure("replayer failed on %s/%s: rc=%s %s" % (module, name, hp.returncode, herr))
     try:
